@@ -344,6 +344,35 @@ func instantiateMode(w *World, assume []*Term, goal *Term, rich bool) ([]*Term, 
 			}
 		}
 	}
+	// interface values: a value of dynamic type T is the box of its T value (interface equality is
+	// equality of dynamic type and value): for every ground unbox_T(i_val v) add the guarded fact
+	if len(w.boxTypes) > 0 {
+		seenB := map[string]bool{}
+		var facts []*Term
+		var walk func(t *Term)
+		walk = func(t *Term) {
+			if t.Op == "forall" || t.Op == "exists" {
+				return
+			}
+			if strings.HasPrefix(t.Op, "unbox_") && len(t.Args) == 1 && t.Args[0].Op == "i_val" && len(t.Args[0].Args) == 1 {
+				k := strings.TrimPrefix(t.Op, "unbox_")
+				if bt, ok := w.boxTypes[k]; ok && !seenB[t.String()] && !strings.Contains(t.String(), "!q") {
+					seenB[t.String()] = true
+					v := t.Args[0].Args[0]
+					pl := t.Args[0]
+					facts = append(facts, Imp(Eq(w.iface.Get(v, 0), w.TypeID(bt)), Eq(pl, App("box_"+k, SInt, t))))
+				}
+			}
+			for _, a := range t.Args {
+				walk(a)
+			}
+		}
+		for _, a := range out {
+			walk(a)
+		}
+		walk(goal)
+		out = append(out, facts...)
+	}
 	return out, goal
 }
 
